@@ -3738,6 +3738,7 @@ func (d *cborDecDriverBytes) DecodeExt(rv interface{}, basetype reflect.Type, xt
 }
 
 func (d *cborDecDriverBytes) decTagBigIntAsFloat(neg bool) (f float64) {
+	d.bdRead = false
 	bs, _ := d.DecodeBytes()
 	bi := new(big.Int).SetBytes(bs)
 	if neg {
@@ -3752,8 +3753,9 @@ func (d *cborDecDriverBytes) decTagBigFloatAsFloat(decimal bool) (f float64) {
 	if nn := d.r.readn1(); nn != 0x82 {
 		halt.errorf("(%d) decoding decimal/big.Float: expected 2 numbers", nn)
 	}
-	exp := d.DecodeInt64()
-	mant := d.DecodeInt64()
+
+	exp := d.decTagInteger()
+	mant := d.decTagInteger()
 	if decimal {
 
 		rf := readFloatResult{exp: int8(exp)}
@@ -3772,6 +3774,16 @@ func (d *cborDecDriverBytes) decTagBigFloatAsFloat(decimal bool) (f float64) {
 		f, _ = bf.Float64()
 	}
 	return
+}
+
+func (d *cborDecDriverBytes) decTagInteger() (i int64) {
+	d.readNextBd()
+	ui, neg, ok := d.decInteger()
+	if !ok {
+		halt.errorf("decoding decimal/big.Float: expected an integer, got: 0x%x (%s)", d.bd, cbordesc(d.bd))
+	}
+	d.bdRead = false
+	return decNegintPosintFloatNumberHelperInt64v(ui, neg, true)
 }
 
 func (d *cborDecDriverBytes) DecodeNaked() {
@@ -7778,6 +7790,7 @@ func (d *cborDecDriverIO) DecodeExt(rv interface{}, basetype reflect.Type, xtag 
 }
 
 func (d *cborDecDriverIO) decTagBigIntAsFloat(neg bool) (f float64) {
+	d.bdRead = false
 	bs, _ := d.DecodeBytes()
 	bi := new(big.Int).SetBytes(bs)
 	if neg {
@@ -7792,8 +7805,9 @@ func (d *cborDecDriverIO) decTagBigFloatAsFloat(decimal bool) (f float64) {
 	if nn := d.r.readn1(); nn != 0x82 {
 		halt.errorf("(%d) decoding decimal/big.Float: expected 2 numbers", nn)
 	}
-	exp := d.DecodeInt64()
-	mant := d.DecodeInt64()
+
+	exp := d.decTagInteger()
+	mant := d.decTagInteger()
 	if decimal {
 
 		rf := readFloatResult{exp: int8(exp)}
@@ -7812,6 +7826,16 @@ func (d *cborDecDriverIO) decTagBigFloatAsFloat(decimal bool) (f float64) {
 		f, _ = bf.Float64()
 	}
 	return
+}
+
+func (d *cborDecDriverIO) decTagInteger() (i int64) {
+	d.readNextBd()
+	ui, neg, ok := d.decInteger()
+	if !ok {
+		halt.errorf("decoding decimal/big.Float: expected an integer, got: 0x%x (%s)", d.bd, cbordesc(d.bd))
+	}
+	d.bdRead = false
+	return decNegintPosintFloatNumberHelperInt64v(ui, neg, true)
 }
 
 func (d *cborDecDriverIO) DecodeNaked() {
